@@ -72,7 +72,7 @@ class ExprMixin:
         # module level
         mod = self.tree.module(fr.file)
         imp = getattr(mod, 'imports', {})
-        if name in imp:
+        if name in imp and name != '*':
             origin = imp[name]
             if origin.startswith('libc.math.') or origin.startswith('math.') or origin.startswith('numpy.') and origin.split('.')[-1] in ('pi',):
                 short = origin.split('.')[-1]
@@ -96,6 +96,21 @@ class ExprMixin:
         consts = self.tree.module_consts(fr.file)
         if name in consts:
             return self.module_const(fr.file, name, consts[name], st, fr)
+        # companion .pxd of a .pyx shares its namespace (inline functions, constants)
+        if fr.file.endswith('.pyx'):
+            import os
+            pxd = fr.file[:-4] + '.pxd'
+            if os.path.exists(self.tree.abspath(pxd)):
+                pmod = self.tree.module(pxd)
+                for n in pmod.body:
+                    if isinstance(n, ast.FunctionDef) and n.name == name and not getattr(n, 'declaration_only', False):
+                        return FuncVal(pxd, name, n)
+                pim = getattr(pmod, 'imports', {})
+                if name in pim and name != '*':
+                    r = self.resolve_import(pim[name], name, self.make_frame_for_file(pxd))
+                    if r is not None:
+                        return r
+                    return self.unknown_name(name, pim[name], st, fr)
         if name in MATH_CONSTS:
             return self.math_const(MATH_CONSTS[name])
         defs = self.tree.def_consts(fr.file)
@@ -199,6 +214,10 @@ class ExprMixin:
                     if short in consts:
                         return self.module_const(rel, short, consts[short], None, fr)
                     sub = getattr(mod, 'imports', {})
+                    for star in sub.get('*', []):
+                        r = self.resolve_import(star + '.' + short, short, self.make_frame_for_file(rel))
+                        if r is not None and not (isinstance(r, ClassVal) and self.tree.class_info(short) is None):
+                            return r
                     if short in sub and sub[short] != origin:
                         f2 = self.make_frame_for_file(rel)
                         r = self.resolve_import(sub[short], short, f2)
